@@ -420,7 +420,7 @@ ATOMIC_FUNCS = {
     'backoff::spin_cond', 'backoff::get_parallelism', 'backoff::sleep', 'backoff::yield_now', 'backoff::yield_now_std',
     'backoff::spin_wait', 'backoff::spin_hint', 'backoff::random_u7', 'backoff::random_u32', 'backoff::randomize',
 }
-MAX_INLINE_DEPTH = 3
+MAX_INLINE_DEPTH = 5
 
 
 PTR_WRITERS = ('std::mem::replace', 'std::mem::swap', 'std::mem::take', 'std::ptr::write', 'std::ptr::swap', 'std::ptr::replace',
@@ -711,6 +711,8 @@ class Evaluator:
             a = self.operand(st, rv['a'])
             if rv['op'] == 'Not' and a[0] == 'const' and a[1] == 'bool':
                 return ('const', 'bool', '0' if a[2] == '1' else '1')
+            if rv['op'] == 'Not' and a[0] == 'un' and a[1] == 'Not' and rv.get('ty', 'bool') == 'bool':
+                return a[2]  # !!x on a bool
             return ('un', rv['op'], a)
         if k == 'cast':
             o_ = self.operand(st, rv['o'])
@@ -869,7 +871,33 @@ class Evaluator:
                 else:
                     name = '<indirect>'
                     fo = self.operand(st, t['fnop'])
-                    args = (fo,) + args
+                    f0 = fo
+                    while f0[0] == 'cast' and len(f0) > 2:
+                        f0 = f0[2]
+                    if f0[0] == 'fnptr':
+                        # a call through a `fn(..)` pointer whose target is known on this path
+                        name = f0[1]
+                        tgt = None
+                        for k_, b_ in self.body.facts.bodies.items():
+                            if canon(k_) == name:
+                                tgt = k_
+                                break
+                        fn = {'path': tgt or name, 'args': [], 'local': tgt is not None, 'full': tgt or name, 'name': name.split('::')[-1]}
+                    else:
+                        args = (fo,) + args
+                if fn and name in ('std::ops::FnOnce::call_once', 'std::ops::Fn::call', 'std::ops::FnMut::call_mut') and len(args) == 2:
+                    f0 = strip_ref_value(args[0])
+                    if f0 is not None and f0[0] == 'fnptr' and args[1][0] == 'agg' and args[1][1] == 'tuple':
+                        # a function item passed as a value and called (`is_listed(&internal, sig)` with is_listed =
+                        # ChannelInternal::send_signal_exists): it is a direct call of that function
+                        name = f0[1]
+                        args = tuple(args[1][3])
+                        tgt = None
+                        for k_, b_ in self.body.facts.bodies.items():
+                            if canon(k_) == name:
+                                tgt = k_
+                                break
+                        fn = {'path': tgt or name, 'args': [], 'local': tgt is not None, 'full': tgt or name, 'name': name.split('::')[-1]}
                 callee = self.inline_target(st, fn)
                 clo_args = None
                 if callee is None and fn and name in ('std::ops::FnOnce::call_once', 'std::ops::Fn::call', 'std::ops::FnMut::call_mut') \
